@@ -150,6 +150,28 @@ auto __redu_mod(A a, B b) -> decltype(a / b) {
 }
 """
 
+POW_HELPER_SNIPPET = """template <typename A, typename B>
+auto __redu_pow(A a, B b) -> decltype(a * b) {
+  typedef decltype(a * b) R;
+  long n = static_cast<long>(b);
+  if (static_cast<B>(n) == b && n >= 0) {
+    R result = 1;
+    R base = a;
+    while (n > 0) {
+      if (n & 1) {
+        result *= base;
+      }
+      n >>= 1;
+      if (n > 0) {
+        base *= base;
+      }
+    }
+    return result;
+  }
+  return static_cast<R>(pow(static_cast<double>(a), static_cast<double>(b)));
+}
+"""
+
 LIST_HELPER_SNIPPET = """template <typename T>
 struct __redu_list {
   T *data;
@@ -3218,5 +3240,7 @@ def emit(ast: Program) -> str:
     if "__redu_floordiv(" in body or "__redu_mod(" in body:
         # Python semantics for // and % (see parser._binop_c_expr)
         parts.insert(1, PYMATH_HELPER_SNIPPET + "\n")
+    if "__redu_pow(" in body:
+        parts.insert(1, POW_HELPER_SNIPPET + "\n")
 
     return "".join(parts)
